@@ -423,22 +423,26 @@ def lexExp (digs : Str) (nfrac : Nat) (r : Str) : Option (Tok × Str) :=
           if ex.1 = [] then none else lexFSuf (digitsVal digs) ((digitsVal ex.1 : Int) - nfrac) ex.2
     else lexFSuf (digitsVal digs) (-(nfrac : Int)) (c :: r')
 
+def isU (c : Char) : Bool := c = 'U' || c = 'u'
+def isL (c : Char) : Bool := c = 'L' || c = 'l'
+
+def takeU : Str → Bool × Str
+  | [] => (false, [])
+  | c :: r => if isU c then (true, r) else (false, c :: r)
+
+/-- `LL` / `ll` (not mixed case), `L` / `l`, or nothing -/
+def takeL : Str → Nat × Str
+  | [] => (0, [])
+  | [c] => if isL c then (1, []) else (0, [c])
+  | c :: c2 :: r =>
+    if (c = 'L' ∧ c2 = 'L') ∨ (c = 'l' ∧ c2 = 'l') then (2, r)
+    else if isL c then (1, c2 :: r) else (0, c :: c2 :: r)
+
 /-- integer suffix: `U`? then `LL` | `L`?, or `LL` | `L` then `U`? -/
 def lexIntSuffix (ip : Str) (r : Str) : Option (Tok × Str) :=
-  let isU (c : Char) : Bool := c = 'U' || c = 'u'
-  let u1 : Bool × Str := match r with
-    | c :: r' => if isU c then (true, r') else (false, r)
-    | [] => (false, [])
-  let l1 : Nat × Str := match u1.2 with
-    | c :: c2 :: r' =>
-      if (c = 'L' ∧ c2 = 'L') ∨ (c = 'l' ∧ c2 = 'l') then (2, r')
-      else if c = 'L' ∨ c = 'l' then (1, c2 :: r') else (0, u1.2)
-    | [c] => if c = 'L' ∨ c = 'l' then (1, []) else (0, u1.2)
-    | [] => (0, [])
-  let u2 : Bool × Str := if u1.1 then (true, l1.2) else
-    match l1.2 with
-    | c :: r' => if isU c then (true, r') else (false, l1.2)
-    | [] => (false, [])
+  let u1 := takeU r
+  let l1 := takeL u1.2
+  let u2 : Bool × Str := if u1.1 then (true, l1.2) else takeU l1.2
   if !safeEnd u2.2 then none
   else if ip = ['0'] then some (.int 0 false u2.1 l1.1, u2.2)
   else if ip.head? = some '0' then none            -- other octal literals: not in this fragment
@@ -864,7 +868,23 @@ def pyEval : PyExpr → Except PyErr PyV
       | .ok r => pure (.float r)
       | .error .zeroDivision => .error .zeroDivision
       | .error _ => .error .overflow
-    | _, _ => .error .unsupported
+    | _, _ =>
+      -- a float operand: the other one is converted with `float(int)` (OverflowError beyond the range)
+      let conv : PyV → Except PyErr FVal := fun v =>
+        match v with
+        | .float f => .ok f
+        | .int i => (match intToF binary64 i with | .fin s m E => .ok (.fin s m E) | _ => .error .overflow)
+        | .bool b => .ok (intToF binary64 (if b then 1 else 0))
+      match conv x, conv y with
+      | .ok a, .ok b =>
+        match b with
+        | .fin _ 0 _ => .error .zeroDivision
+        | _ =>
+          match fdiv binary64 a b with
+          | .inf s => (match a with | .inf _ => pure (.float (.inf s)) | _ => .error .overflow)
+          | r => pure (.float r)
+      | .error e, _ => .error e
+      | _, .error e => .error e
 
 def pyEvalStr (s : Str) : Except PyErr PyV :=
   match lexStr s with
